@@ -154,7 +154,8 @@ InitHist == [runs |-> {},       \* <<c, j>>: an executor coroutine was started f
 
 InitRc == [pos |-> 0, error |-> FALSE, cancelled |-> FALSE, stored |-> FALSE, stopping |-> FALSE, alive |-> TRUE, replies |-> <<>>]
 InitDrv == [completed |-> 0, doneW |-> {}, step |-> -1, cct |-> FALSE, raw |-> <<>>, store |-> <<>>, ppt |-> 0, alive |-> TRUE]
-InitWk == [cur |-> 0, nxt |-> 0, sd |-> FALSE, fut |-> "none", complete |-> FALSE, cancel |-> FALSE, sampq |-> <<>>, alive |-> TRUE]
+InitWk == [cur |-> 0, nxt |-> 0, sd |-> FALSE, fut |-> "none", complete |-> FALSE, cancel |-> FALSE, sampq |-> <<>>, alive |-> TRUE,
+           mid |-> FALSE]   \* mid: inside receiveMsg_WakeupMessage, between send_samples() and the look at the executor
 
 Init == /\ scn \in Scenarios
         /\ d2w = [w \in Workers(scn) |-> <<Msg("Bootstrap"), Msg("StartWorker")>>]     \* Driver.start_benchmark has run
@@ -197,14 +198,14 @@ WUnch == UNCHANGED <<scn, d2d, rc2d, rcbox, rcst, dtimers, drv, flt>>
 
 (* receiveMsg_Bootstrap: nothing the protocol depends on *)
 WRecvBootstrap(w) ==
-    /\ wk[w].alive /\ d2w[w] # <<>> /\ Head(d2w[w]).k = "Bootstrap"
+    /\ wk[w].alive /\ ~wk[w].mid /\ d2w[w] # <<>> /\ Head(d2w[w]).k = "Bootstrap"
     /\ d2w' = [d2w EXCEPT ![w] = Tail(@)]
     /\ UNCHANGED <<w2d, timers, wk, cell, hist>> /\ WUnch
     /\ act' = [name |-> "WRecvBootstrap", w |-> w]
 
 (* receiveMsg_StartWorker *)
 WRecvStartWorker(w) ==
-    /\ wk[w].alive /\ d2w[w] # <<>> /\ Head(d2w[w]).k = "StartWorker"
+    /\ wk[w].alive /\ ~wk[w].mid /\ d2w[w] # <<>> /\ Head(d2w[w]).k = "StartWorker"
     /\ d2w' = [d2w EXCEPT ![w] = Tail(@)]
     /\ LET r == DriveFrom(w, [wk[w] EXCEPT !.cur = 0, !.cancel = FALSE], {})
        IN /\ wk' = [wk EXCEPT ![w] = r.ws]
@@ -216,7 +217,7 @@ WRecvStartWorker(w) ==
 
 (* receiveMsg_Drive *)
 WRecvDrive(w) ==
-    /\ wk[w].alive /\ d2w[w] # <<>> /\ Head(d2w[w]).k = "Drive"
+    /\ wk[w].alive /\ ~wk[w].mid /\ d2w[w] # <<>> /\ Head(d2w[w]).k = "Drive"
     /\ d2w' = [d2w EXCEPT ![w] = Tail(@)]
     /\ wk' = [wk EXCEPT ![w].sd = TRUE]
     /\ timers' = [timers EXCEPT ![w] = @ + 1]
@@ -225,7 +226,7 @@ WRecvDrive(w) ==
 
 (* receiveMsg_CompleteCurrentTask *)
 WRecvCCT(w) ==
-    /\ wk[w].alive /\ d2w[w] # <<>> /\ Head(d2w[w]).k = "CompleteCurrentTask"
+    /\ wk[w].alive /\ ~wk[w].mid /\ d2w[w] # <<>> /\ Head(d2w[w]).k = "CompleteCurrentTask"
     /\ d2w' = [d2w EXCEPT ![w] = Tail(@)]
     /\ wk' = [wk EXCEPT ![w].complete = IF Col(scn, wk[w].cur).k = "jp" /\ ~(CctFix /\ wk[w].sd) THEN @ ELSE TRUE]
     /\ UNCHANGED <<w2d, timers, cell, hist>> /\ WUnch
@@ -234,40 +235,55 @@ WRecvCCT(w) ==
 (* Worker.receiveMsg_BenchmarkFailure: sent by the no_retry infrastructure (a coordinator handler failed while handling *)
 (* this worker's message); forward to the coordinator                                                                   *)
 WRecvBenchmarkFailure(w) ==
-    /\ wk[w].alive /\ d2w[w] # <<>> /\ Head(d2w[w]).k = "BenchmarkFailure"
+    /\ wk[w].alive /\ ~wk[w].mid /\ d2w[w] # <<>> /\ Head(d2w[w]).k = "BenchmarkFailure"
     /\ d2w' = [d2w EXCEPT ![w] = Tail(@)]
     /\ w2d' = [w2d EXCEPT ![w] = Append(@, Msg("BenchmarkFailure"))]
     /\ UNCHANGED <<timers, wk, cell, hist>> /\ WUnch
     /\ act' = [name |-> "WRecvBenchmarkFailure", w |-> w]
 
-(* receiveMsg_WakeupMessage *)
+(* receiveMsg_WakeupMessage.  The handler looks at state shared with the executor THREAD more than once (the sampler     *)
+(* queue, then the executor's future), and the executor may run in between: the handler is therefore three actions:     *)
+(*   WWakeup(w)   start_driving was set: drive on (nothing shared is read)                                             *)
+(*   WWakeupA(w)  current_samples = self.send_samples()                                                                *)
+(*   WWakeupB(w)  the rest: executor done -> drive(); executor failed -> BenchmarkFailure; else re-arm                  *)
+(* No other message is handled by w between A and B (actors are single-threaded); executor steps may happen.            *)
 WWakeup(w) ==
-    /\ wk[w].alive /\ timers[w] > 0
-    /\ IF wk[w].sd
-       THEN /\ LET r == DriveFrom(w, [wk[w] EXCEPT !.sd = FALSE], {})
-               IN /\ wk' = [wk EXCEPT ![w] = r.ws]
-                  /\ w2d' = [w2d EXCEPT ![w] = @ \o r.send]
-                  /\ timers' = [timers EXCEPT ![w] = @ - 1 + r.arm]
-                  /\ hist' = [hist EXCEPT !.skip = @ \cup r.skipped]
-       ELSE LET ws0 == [wk[w] EXCEPT !.sampq = <<>>]            \* current_samples = self.send_samples()
-                sent == SendSamples(w, wk[w])
-            IN IF wk[w].fut = "done"
-               THEN /\ LET r == DriveFrom(w, [ws0 EXCEPT !.fut = "none"], {})
-                       IN /\ wk' = [wk EXCEPT ![w] = r.ws]
-                          /\ w2d' = [w2d EXCEPT ![w] = @ \o sent \o r.send]
-                          /\ timers' = [timers EXCEPT ![w] = @ - 1 + r.arm]
-                          /\ hist' = [hist EXCEPT !.skip = @ \cup r.skipped]
-               ELSE IF wk[w].fut = "failed"
-               THEN \* the executor raised: notify the coordinator, do not wake up again
-                    /\ wk' = [wk EXCEPT ![w] = ws0]
-                    /\ w2d' = [w2d EXCEPT ![w] = @ \o sent \o <<Msg("BenchmarkFailure")>>]
-                    /\ timers' = [timers EXCEPT ![w] = @ - 1]
-                    /\ hist' = hist
-               ELSE /\ wk' = [wk EXCEPT ![w] = ws0]
-                    /\ w2d' = [w2d EXCEPT ![w] = @ \o sent]
-                    /\ UNCHANGED <<timers, hist>>      \* still executing: re-arm (−1 + 1)
+    /\ wk[w].alive /\ ~wk[w].mid /\ timers[w] > 0 /\ wk[w].sd
+    /\ LET r == DriveFrom(w, [wk[w] EXCEPT !.sd = FALSE], {})
+       IN /\ wk' = [wk EXCEPT ![w] = r.ws]
+          /\ w2d' = [w2d EXCEPT ![w] = @ \o r.send]
+          /\ timers' = [timers EXCEPT ![w] = @ - 1 + r.arm]
+          /\ hist' = [hist EXCEPT !.skip = @ \cup r.skipped]
     /\ UNCHANGED <<d2w, cell>> /\ WUnch
     /\ act' = [name |-> "WWakeup", w |-> w]
+
+WWakeupA(w) ==
+    /\ wk[w].alive /\ ~wk[w].mid /\ timers[w] > 0 /\ ~wk[w].sd
+    /\ wk' = [wk EXCEPT ![w].sampq = <<>>, ![w].mid = TRUE]
+    /\ w2d' = [w2d EXCEPT ![w] = @ \o SendSamples(w, wk[w])]
+    /\ timers' = [timers EXCEPT ![w] = @ - 1]
+    /\ UNCHANGED <<d2w, cell, hist>> /\ WUnch
+    /\ act' = [name |-> "WWakeupA", w |-> w]
+
+WWakeupB(w) ==
+    /\ wk[w].alive /\ wk[w].mid
+    /\ LET ws0 == [wk[w] EXCEPT !.mid = FALSE]
+       IN IF wk[w].fut = "done"
+          THEN /\ LET r == DriveFrom(w, [ws0 EXCEPT !.fut = "none"], {})
+                  IN /\ wk' = [wk EXCEPT ![w] = r.ws]
+                     /\ w2d' = [w2d EXCEPT ![w] = @ \o r.send]
+                     /\ timers' = [timers EXCEPT ![w] = @ + r.arm]
+                     /\ hist' = [hist EXCEPT !.skip = @ \cup r.skipped]
+          ELSE IF wk[w].fut = "failed"
+          THEN \* the executor raised: notify the coordinator, do not wake up again
+               /\ wk' = [wk EXCEPT ![w] = ws0]
+               /\ w2d' = [w2d EXCEPT ![w] = Append(@, Msg("BenchmarkFailure"))]
+               /\ UNCHANGED <<timers, hist>>
+          ELSE /\ wk' = [wk EXCEPT ![w] = ws0]
+               /\ timers' = [timers EXCEPT ![w] = @ + 1]      \* still executing: wake up again
+               /\ UNCHANGED <<w2d, hist>>
+    /\ UNCHANGED <<d2w, cell>> /\ WUnch
+    /\ act' = [name |-> "WWakeupB", w |-> w]
 
 -----------------------------------------------------------------------------
 (* The executor thread of worker w.                                                                  *)
@@ -451,7 +467,7 @@ DRecvFromRc ==
             /\ d2d' = <<>> /\ dtimers' = <<>>
             /\ w2d' = [w \in Workers(scn) |-> <<>>]
             /\ d2w' = [w \in Workers(scn) |-> <<>>]
-            /\ wk' = [w \in Workers(scn) |-> [wk[w] EXCEPT !.alive = FALSE]]
+            /\ wk' = [w \in Workers(scn) |-> [wk[w] EXCEPT !.alive = FALSE, !.mid = FALSE]]
             /\ timers' = [w \in Workers(scn) |-> 0]
             /\ rcbox' = rcbox
     /\ UNCHANGED <<scn, rcst, cell, flt, hist>>
@@ -479,7 +495,7 @@ FArm(k) == /\ k \in {"store", "rcstore"} /\ CanFault(k)
 FWorkerDies(w) ==
     /\ CanFault("die") /\ wk[w].alive
     /\ wk[w].cur < NCols(scn) - 1          \* the worker has not yet reported the last join point: it still takes part in the race
-    /\ wk' = [wk EXCEPT ![w].alive = FALSE]
+    /\ wk' = [wk EXCEPT ![w].alive = FALSE, ![w].mid = FALSE]
     /\ timers' = [timers EXCEPT ![w] = 0]
     /\ d2w' = [d2w EXCEPT ![w] = <<>>]
     /\ w2d' = [w2d EXCEPT ![w] = Append(@, Msg("ChildActorExited"))]
@@ -530,7 +546,7 @@ RcEngineStopped ==
     /\ UNCHANGED <<rc2d, flt>> /\ RcUnch
     /\ act' = [name |-> "RcEngineStopped", w |-> 0]
 
-Next == \/ \E w \in Workers(scn) : \/ WRecvBootstrap(w) \/ WRecvStartWorker(w) \/ WRecvDrive(w) \/ WRecvCCT(w) \/ WWakeup(w)
+Next == \/ \E w \in Workers(scn) : \/ WRecvBootstrap(w) \/ WRecvStartWorker(w) \/ WRecvDrive(w) \/ WRecvCCT(w) \/ WWakeup(w) \/ WWakeupA(w) \/ WWakeupB(w)
                                     \/ WRecvBenchmarkFailure(w) \/ ExecStart(w)
                                     \/ DRecvJoinPointReached(w) \/ DRecvUpdateSamples(w) \/ DRecvBenchmarkFailure(w) \/ DRecvChildExited(w)
                                     \/ FWorkerDies(w)
@@ -539,11 +555,15 @@ Next == \/ \E w \in Workers(scn) : \/ WRecvBootstrap(w) \/ WRecvStartWorker(w) \
         \/ DRecvSelfFailure \/ DRecvFromRc \/ RcRecv \/ RcEngineStopped
         \/ FArm("store") \/ FArm("rcstore") \/ FCancel
 
-WorkerStep(w) == WRecvBootstrap(w) \/ WRecvStartWorker(w) \/ WRecvDrive(w) \/ WRecvCCT(w) \/ WWakeup(w) \/ ExecStart(w)
-                 \/ WRecvBenchmarkFailure(w)
-                 \/ DRecvJoinPointReached(w) \/ DRecvUpdateSamples(w) \/ DRecvBenchmarkFailure(w) \/ DRecvChildExited(w)
-(* fairness w.r.t. the real state (view): a wake-up that only re-arms itself is no progress *)
-Fairness == /\ \A w \in 1..3 : WF_view(w \in Workers(scn) /\ WorkerStep(w))
+WorkerRecv(w) == WRecvBootstrap(w) \/ WRecvStartWorker(w) \/ WRecvDrive(w) \/ WRecvCCT(w) \/ WRecvBenchmarkFailure(w)
+WorkerWake(w) == WWakeup(w) \/ WWakeupB(w) \/ (WWakeupA(w) /\ (wk[w].fut \in {"done", "failed"} \/ wk[w].sampq # <<>>))
+DriverRecv(w) == DRecvJoinPointReached(w) \/ DRecvUpdateSamples(w) \/ DRecvBenchmarkFailure(w) \/ DRecvChildExited(w)
+(* fairness per kind of step, w.r.t. the real state (view).  A periodic wake-up that finds the executor still running *)
+(* and nothing to ship only re-arms itself: it is deliberately not part of the fair actions (it is no progress).            *)
+Fairness == /\ \A w \in 1..3 : /\ SF_view(w \in Workers(scn) /\ WorkerRecv(w))   \* strong: a message is only deliverable between two handlers
+                              /\ WF_view(w \in Workers(scn) /\ WorkerWake(w))
+                              /\ WF_view(w \in Workers(scn) /\ ExecStart(w))
+                              /\ WF_view(w \in Workers(scn) /\ DriverRecv(w))
             /\ \A c \in 0..5 : WF_view(c \in Clients(scn) /\ ExecStep(c))
             /\ WF_view(DRecvSelfFailure) /\ WF_view(DRecvFromRc) /\ WF_view(RcRecv) /\ WF_view(RcEngineStopped)
             /\ WF_view(\E i \in 1..Len(dtimers) : DWakeup(i))
@@ -597,7 +617,7 @@ TypeOK == /\ drv.completed \in 0..scn.W /\ drv.step \in -1..NSteps(scn)
 NoHang == <>Complete
 
 (* a state in which no worker, executor or message can make progress must be the completed race *)
-Quiescent == /\ \A w \in Workers(scn) : d2w[w] = <<>> /\ w2d[w] = <<>> /\ timers[w] = 0 /\ wk[w].fut # "submitted"
+Quiescent == /\ \A w \in Workers(scn) : d2w[w] = <<>> /\ w2d[w] = <<>> /\ timers[w] = 0 /\ wk[w].fut # "submitted" /\ ~wk[w].mid
              /\ \A c \in Clients(scn) : cell[c].st # "pend"
 NoStall == (flt.kind = "none" /\ Quiescent) => Complete
 
